@@ -795,7 +795,13 @@ fn judge(scn: &Scenario, fin: &[DocFinal], plan: &[Probe], run: &RunOut, rf: &Re
             DocFinal::Open { version, tag, .. } => {
                 let found = tags_in(&got_s);
                 let ref_s = exp.iter().map(|v| v.to_string()).collect::<Vec<_>>().join("\n");
-                let latest_parses = tags_in(&ref_s).contains(tag);
+                // decided by the real front end (a truncated text may parse and still carry no attribution tag)
+                let text_parses = match &fin[d] {
+                    DocFinal::Open { text, .. } => incan::lexer::lex(text).ok().and_then(|t| incan::parser::parse(&t).ok()).is_some(),
+                    _ => false,
+                };
+                let latest_parses = text_parses;
+                let tag_visible = tags_in(&ref_s).contains(tag);
                 let stale: Vec<&String> = found.iter().filter(|t| *t != tag).collect();
                 if !stale.is_empty() {
                     let class = if latest_parses { "stale-overwrite" } else { "stale-after-unparsable" };
@@ -804,7 +810,7 @@ fn judge(scn: &Scenario, fin: &[DocFinal], plan: &[Probe], run: &RunOut, rf: &Re
                         doc: Some(d),
                         detail: format!("document {letter}: latest sent is {tag} (v{version}, parses={latest_parses}) but the idle server answers from {:?}", stale),
                     });
-                } else if latest_parses && !found.contains(tag) {
+                } else if tag_visible && !found.contains(tag) {
                     f.push(Finding {
                         class: "latest-not-served".into(),
                         doc: Some(d),
